@@ -139,6 +139,28 @@ pub fn run(tier: Tier) -> i32 {
         for cut in 0..w.bytes.len() {
             mutants.push((format!("truncated to {} of {} bytes", cut, w.bytes.len()), w.bytes[..cut].to_vec()));
         }
+        // illegal properties with a payload that is CONSISTENT with them (re-encoded by the reference encoder under
+        // the illegal lc/lp), so that only the lc+lp rule itself can object - a decoder that lost the rule accepts these
+        for ci in 0..cs.len() {
+            if let Chunk::C { class, props, prog } = &cs[ci] {
+                if *class < 2 {
+                    continue;
+                }
+                for lc in 0..=8u32 {
+                    for lp in 0..=4u32 {
+                        if lc + lp <= 4 {
+                            continue;
+                        }
+                        for pb in [props.2, (props.2 + 1) % 5] {
+                            let mut cs2 = cs.clone();
+                            cs2[ci] = Chunk::C { class: *class, props: (lc, lp, pb), prog: prog.clone() };
+                            let w2 = lzma2::write(&cs2);
+                            mutants.push((format!("chunk {} re-encoded under illegal properties lc={} lp={} pb={}", ci, lc, lp, pb), w2.bytes));
+                        }
+                    }
+                }
+            }
+        }
         for (what, m) in mutants {
             ctx.eval(1);
             let reason = match lzma2::strict_decode(&m) {
